@@ -91,6 +91,15 @@ func main() {
 		props.DebugAppends(&props.Run{P: p, E: core.NewEngine(p), R: core.NewReport("dbg", "quick", 0)}, fp[0], fp[1])
 		return
 	}
+	if *dump == "e6" {
+		p, err := core.Load(core.Config{Name: "default", Dir: *dir})
+		if err != nil {
+			fmt.Println(err)
+			os.Exit(2)
+		}
+		props.DebugUniversalE6(&props.Run{P: p, E: core.NewEngine(p), R: core.NewReport("dbg", "quick", 0)})
+		return
+	}
 	if *dump == "sinks" {
 		p, err := core.Load(core.Config{Name: "default", Dir: *dir})
 		if err != nil {
